@@ -17,7 +17,7 @@ ASSUMPTIONS = []
 
 BASE_TOKENS = ["a", 0, 3, 12, "0", "3", "é", "~", "/", "-", "x y", "007", "C:\\temp", "\\u0041", "a\\", "\\n"]
 OFFSETS = ["", "+1", "-1", "+2", "-2", "+10", "-10", "+12", "-12"]
-SUFFIXES = ["", "#", "/b", "/k%7E0/caf%C3%A9", "/%41/%2F", "/a\\u0041", "/~0~1", "/é/0", "/ a", "/a ", "/0/1"]
+SUFFIXES = ["", "#", "/b", "/~01", "/x~01y/~10", "/k%7E0/caf%C3%A9", "/%41/%2F", "/a\\u0041", "/~0~1", "/é/0", "/ a", "/a ", "/0/1"]
 MALFORMED = ["", "a", "#", "/a", "01", "00#", "0+0", "0-0", "0+01", "0+", "0-", "1+#", "0+1x", "0 #", " 0#", "0# ", "1e3", "-1",
              "+1", "0++1", "0+1+1", "٣", "0/a\\u0041", "0/\\x", "99999999999999999999", "0+99999999999999999999", "2/a~", "1#/a"]
 
